@@ -1,0 +1,35 @@
+//go:build verif
+
+package engine
+
+import "sync/atomic"
+
+// VerifScheduleHooks lets a verification harness observe and control the order
+// in which the workers of the ParallelBatchParser deliver their results.
+// It only exists in builds with the `verif` tag.
+type VerifScheduleHooks struct {
+	// BeforeSend is called by a worker goroutine right before it sends the
+	// result of the batch with the given index. It may block.
+	BeforeSend func(batchIndex int)
+	// OnCollect is called by the collector for every result, in arrival order.
+	OnCollect func(batchIndex int)
+}
+
+var verifScheduleHooks atomic.Pointer[VerifScheduleHooks]
+
+// SetVerifScheduleHooks installs (or, with nil, removes) the hooks.
+func SetVerifScheduleHooks(h *VerifScheduleHooks) {
+	verifScheduleHooks.Store(h)
+}
+
+func verifBeforeSend(batchIndex int) {
+	if h := verifScheduleHooks.Load(); h != nil && h.BeforeSend != nil {
+		h.BeforeSend(batchIndex)
+	}
+}
+
+func verifOnCollect(batchIndex int) {
+	if h := verifScheduleHooks.Load(); h != nil && h.OnCollect != nil {
+		h.OnCollect(batchIndex)
+	}
+}
